@@ -113,6 +113,7 @@ pub fn default_knobs(rng: &mut Rng, threaded: bool) -> Json {
     ("spurious_permille", Json::Int(if threaded && rng.below(2) == 0 { *rng.pick(&[20i64, 50, 150]) } else { 0 })),
     ("jitter_ns", Json::Int(0)),
     ("hash_salt", Json::Int(rng.below(4) as i64)),
+    ("release_points", Json::Bool(threaded && rng.below(3) == 0)),
   ])
 }
 
@@ -132,6 +133,7 @@ pub fn cfg_from_knobs(seed: u64, k: &Json) -> RunCfg {
   cfg.spurious_permille = k.u("spurious_permille") as u32;
   cfg.jitter_max_ns = k.u("jitter_ns");
   cfg.hash_seed = seed ^ k.u("hash_salt").wrapping_mul(0x9E37_79B9_7F4A_7C15);
+  cfg.release_points = k.b("release_points");
   if let Some(b) = k.get("step_budget").and_then(|x| x.as_u64()) {
     cfg.step_budget = b;
   }
@@ -347,6 +349,9 @@ pub fn run_check(spec: CheckSpec, tier: Tier) -> i32 {
               *local.faults.entry("timer_jitter".into()).or_insert(0) += out.res.faults.jitter;
               if !knobs.b("writer_pref") {
                 *local.faults.entry("rwlock_reader_preferring_policy".into()).or_insert(0) += 1;
+              }
+              if knobs.b("release_points") {
+                *local.faults.entry("scheduling_point_at_lock_release".into()).or_insert(0) += 1;
               }
               if knobs.u("hash_salt") != 0 {
                 *local.faults.entry("hash_order_perturbed".into()).or_insert(0) += 1;
@@ -651,7 +656,7 @@ fn minimise_and_write(prop: &str, fam: &dyn Family, f: Found, vdir: &str) -> Str
       }
       let mut hit = try_run(&c, Some(&decisions), f.seed);
       if hit.is_none() && fam.threaded() {
-        for k in 0..12u64 {
+        for k in 0..80u64 {
           hit = try_run(&c, None, f.seed.wrapping_add(k * 7919 + 1) & ((1 << 53) - 1));
           if hit.is_some() {
             break;
